@@ -259,3 +259,113 @@ Proof.
   unfold info_of_keyset, proto_of_handle, info_of_handle. cbn [ks_primary ks_keys]. f_equal.
   rewrite map_map. reflexivity.
 Qed.
+
+(* ------------------------------------------------------------------ *)
+(* the encrypted form                                                  *)
+(* ------------------------------------------------------------------ *)
+(* ConsumeVarint reads back what AppendVarint wrote *)
+Lemma varint_aux_enc : forall k idx acc v r,
+  (1 <= k)%nat -> idx + N.of_nat k = 10 -> v < 2 ^ (64 - 7 * idx) ->
+  varint_aux k idx acc (enc_varint_aux k v ++ r) = Some (acc + v * 2 ^ (7 * idx), r).
+Proof.
+  induction k as [|k IH]; intros idx acc v r Hk Hidx Hv; [lia|].
+  cbn [enc_varint_aux]. destruct (v <? 128) eqn:Lt.
+  - cbn [app varint_aux]. rewrite Lt.
+    destruct (idx =? 9) eqn:E9; cbn [andb]; [|reflexivity].
+    apply N.eqb_eq in E9. subst idx. change (64 - 7 * 9) with 1 in Hv. change (2 ^ 1) with 2 in Hv.
+    assert (v <? 2 = true) as -> by lia. reflexivity.
+  - cbn [app varint_aux].
+    assert ((v mod 128 + 128 <? 128) = false) as -> by lia.
+    assert (Hidx8 : idx <= 8).
+    { destruct (N.le_gt_cases idx 8) as [L|G]; [exact L|]. exfalso.
+      assert (idx = 9) by lia. subst idx. change (2 ^ (64 - 7 * 9)) with 2 in Hv. lia. }
+    assert (Hk' : (1 <= k)%nat) by lia.
+    rewrite (IH (idx + 1) _ (v / 128) r Hk'); [|lia|].
+    + f_equal. f_equal.
+      replace (v mod 128 + 128 - 128) with (v mod 128) by lia.
+      replace (7 * (idx + 1)) with (7 * idx + 7) by lia. rewrite N.pow_add_r. change (2 ^ 7) with 128.
+      pose proof (N.div_mod v 128). nia.
+    + replace (64 - 7 * idx) with (7 + (64 - 7 * (idx + 1))) in Hv by lia.
+      rewrite N.pow_add_r in Hv. change (2 ^ 7) with 128 in Hv.
+      apply N.div_lt_upper_bound; lia.
+Qed.
+
+Lemma varint_enc v r : v < 18446744073709551616 -> varint (enc_varint v ++ r) = Some (v, r).
+Proof.
+  intros H. unfold varint, enc_varint. rewrite varint_aux_enc; try lia.
+  - f_equal. f_equal. change (7 * 0) with 0. change (2 ^ 0) with 1. lia.
+  - change (2 ^ (64 - 7 * 0)) with 18446744073709551616. exact H.
+Qed.
+
+Lemma take_all b : take (blen b) b = Some (b, []).
+Proof.
+  unfold take. rewrite N.leb_refl. unfold blen. rewrite Nnat.Nat2N.id, firstn_all, skipn_all. reflexivity.
+Qed.
+
+(* BinaryReader.ReadEncrypted recovers the ciphertext BinaryWriter.WriteEncrypted wrote *)
+Theorem written_binary_decodes ct : blen ct < 18446744073709551616 ->
+  decode_encrypted (ser_encrypted_binary ct) = Some ct.
+Proof.
+  intros Hl. unfold ser_encrypted_binary, enc_bytes_field. destruct ct as [|c0 ct']; [vm_compute; reflexivity|].
+  set (ct := c0 :: ct') in *.
+  assert (F : fields (enc_len_field 2 ct) = Some [(2, FLen ct)]).
+  { unfold fields, enc_len_field. change (enc_tag 2 2) with [18]. cbn [app length fields_aux].
+    change (varint (18 :: enc_varint (blen ct) ++ ct)) with (Some (18, enc_varint (blen ct) ++ ct)).
+    cbv iota. change (18 / 8) with 2. change (18 mod 8) with 2.
+    change ((2 <? 1) || (max_field_number <? 2)) with false. cbv iota.
+    change (2 =? 0) with false. change (2 =? 2) with true. cbv iota.
+    rewrite varint_enc by exact Hl. rewrite take_all.
+    destruct (length (enc_varint (blen ct) ++ ct)); reflexivity. }
+  unfold decode_encrypted, wire_ok, sch_encrypted, fields_or_nil. rewrite F. cbn. reflexivity.
+Qed.
+
+Section EncryptedProofs.
+Variable ec_point_ok : N -> bytes -> bool.
+Variable ec_pub_of_priv : N -> bytes -> option bytes.
+(* the key-encryption AEAD as a family indexed by the key *)
+Variable K : Type.
+Variable aead_enc : K -> bytes -> bytes -> bytes -> bytes.     (* key, iv, plaintext, associated data *)
+Variable aead_dec : K -> bytes -> bytes -> option bytes.       (* key, ciphertext, associated data *)
+Notation read_encrypted k := (read_encrypted ec_point_ok ec_pub_of_priv (aead_dec k)).
+
+(* unconditionally: a handle comes back only if the AEAD accepted *)
+Theorem encrypted_read_needs_aead k b ad h : read_encrypted k b ad = Ok h ->
+  exists ct pt ks, decode_encrypted b = Some ct /\ aead_dec k ct ad = Some pt
+    /\ decode_keyset pt = Some ks /\ accepted_as ks h.
+Proof. apply read_encrypted_wf. Qed.
+
+Theorem aead_rejects_then_error k b ad ct : decode_encrypted b = Some ct -> aead_dec k ct ad = None ->
+  read_encrypted k b ad = Err.
+Proof. apply wrong_kek_rejected. Qed.
+
+(* laws of an (ideal) AEAD: decryption inverts encryption, and only under
+   the same key and associated data *)
+Hypothesis aead_correct : forall k iv pt ad, aead_dec k (aead_enc k iv pt ad) ad = Some pt.
+Hypothesis aead_auth : forall k k' iv pt ad ad',
+  (k' <> k \/ ad' <> ad) -> aead_dec k' (aead_enc k iv pt ad) ad' = None.
+
+Theorem wrong_key_or_ad_rejected k k' h iv ad ad' b :
+  write_encrypted_binary (aead_enc k) h iv ad = Ok b ->
+  blen (encrypted_ct (aead_enc k) h iv ad) < 18446744073709551616 ->
+  (k' <> k \/ ad' <> ad) -> read_encrypted k' b ad' = Err.
+Proof.
+  unfold write_encrypted_binary. destruct h as [|e0 t]; [discriminate|]. intros H S W. inversion H; subst b.
+  unfold Untrusted.read_encrypted. rewrite written_binary_decodes by exact S.
+  unfold encrypted_ct. rewrite aead_auth by exact W. reflexivity.
+Qed.
+
+Theorem right_key_reads_serialized_keyset k h iv ad b :
+  write_encrypted_binary (aead_enc k) h iv ad = Ok b ->
+  blen (encrypted_ct (aead_enc k) h iv ad) < 18446744073709551616 ->
+  read_encrypted k b ad =
+  match decode_keyset (ser_keyset (proto_of_handle h)) with
+  | Some ks => handle_from_proto ec_point_ok ec_pub_of_priv (Some ks)
+  | None => Err
+  end.
+Proof.
+  unfold write_encrypted_binary. destruct h as [|e0 t]; [discriminate|]. intros H S. inversion H; subst b.
+  unfold Untrusted.read_encrypted. rewrite written_binary_decodes by exact S.
+  unfold encrypted_ct. rewrite aead_correct. reflexivity.
+Qed.
+
+End EncryptedProofs.
